@@ -14,6 +14,7 @@ import Desync.Model.Chunk
 import Desync.Model.ReadSeeker
 import Desync.Model.Sparse
 import Desync.Model.HttpHandler
+import Desync.Model.LocalStore
 
 namespace Driver
 open Desync
@@ -387,6 +388,33 @@ def cmdHttp (index : Bool) (a : Args) : String :=
   let resp := if index then serveIndex cfg o r else serveChunk (digestOf (a.get "alg")) (fun _ => decRes) cfg o r
   s!"{resp.status} " ++ String.intercalate "," (resp.calls.map callStr)
 
+def cmdStoreName (a : Args) : String :=
+  let (d, n) := nameFromID (a.bool "unc") ((ofHex (a.get "id")).getD [])
+  toHex d ++ "/" ++ toHex n
+
+def actStr : FileAct → String
+  | .skip => "skip" | .removeTemp => "tmp" | .consider id => "id:" ++ toHex id
+
+def cmdPruneClassify (a : Args) : String :=
+  actStr (pruneClassify (a.bool "unc") ((ofHex (a.get "name")).getD []))
+
+def parseFiles (s : String) : List (Bytes × Bytes) :=
+  if s.isEmpty then [] else
+  (s.splitOn ";").filterMap fun p =>
+    match p.splitOn "/" with
+    | [d, n] => do let d ← ofHex d; let n ← ofHex n; pure (d, n)
+    | _ => none
+
+def filesStr (d : StoreDir) : String :=
+  String.intercalate ";" ((d.map fun (a, b) => toHex a ++ "/" ++ toHex b).toArray.qsort (· < ·)).toList
+
+/-- `prune.run unc= keep=idhex,… files=dirhex/namehex;…` (files in walk order) -/
+def cmdPruneRun (a : Args) : String :=
+  let keepIds := if (a.get "keep").isEmpty then [] else ((a.get "keep").splitOn ",").filterMap ofHex
+  match prune (a.bool "unc") (fun id => keepIds.contains id) (parseFiles (a.get "files")) with
+  | .ok d => "ok " ++ filesStr d
+  | .failed d => "failed " ++ filesStr d
+
 def runLine (l : String) : String :=
   match l.splitOn " " with
   | [] => "bad-op"
@@ -398,6 +426,9 @@ def runLine (l : String) : String :=
     | "chunk.all" => cmdChunkAll a
     | "hash" => cmdHash a
     | "ip.ops" => cmdIpOps a
+    | "store.name" => cmdStoreName a
+    | "prune.classify" => cmdPruneClassify a
+    | "prune.run" => cmdPruneRun a
     | "http.chunk" => cmdHttp false a
     | "http.index" => cmdHttp true a
     | "sparse.ops" => cmdSparseOps a
